@@ -57,12 +57,19 @@ def run_case(world, prop, monitor, extra_monitors=(), key_fn=None, nontrivial_fn
             F = execute(w)
             execs += 1
             runs.append(("faulted", F, w))
+    if (world.get("case") or {}).get("resolve") and R.solver is not None and R.trials:
+        # the same solve once more on the same solver object and device
+        R2 = execute(world, problem=R.problem, solver=R.solver)
+        execs += 1
+        runs.append(("resolved", R2, world))
     for (name, ex, w) in runs:
         sub = {"variant": name}
         if only is not None and only != sub:
             continue
         vsec += ex.clock.t - ex.clock.t0
         bump(name + "." + ex.outcome.split("@")[0])
+        if name == "resolved":
+            bump("resolved.runs")
         bump("trials", len(ex.trials))
         nfired = len(ex.problem.fired) + len([f for f in ex.lin_fired if f[0] != "obs_solve"])
         if nfired:
